@@ -8,7 +8,9 @@ from ..common.env import HarnessError
 from . import c01
 
 ID = "C02"
-RULE = ("'history': the same continuum and dissimilarity objects are re-aligned after in-place edits (replace/add/remove a unit). Otherwise: "
+RULE = ("'history': the same continuum and dissimilarity objects are re-aligned after in-place edits (replace/add/remove a unit). 'bridge': 3-5 annotators, two short units whose couple alone costs C(n,2)..n*C(n,2) delta_empty (steps of 1/32 on the "
+        "gap/duration ratio) bridged by a long unit of every other annotator, optional far bystanders: optimality and survival of the n-unit candidate "
+        "depend on its SUM only. Otherwise: "
         "case = (continuum small enough for an exact oracle: n>=3 with prod(k_i+1) <= 1300, e.g. 3x9 / 4x5 / 5x3, or 2 annotators up to 2x60; "
         "dissimilarity spec with alpha/beta incl. 0 and delta_empty != 1; back-end cbc|glpk), Hypothesis-generated, plus the C01 exhaustive grid. "
         "Oracle: minimum over ALL partitions using the UNPRUNED candidate set and float64 reference formulas "
@@ -142,6 +144,34 @@ def larger_cases(draw):
 
 
 @st.composite
+def bridge_cases(draw):
+    """two short units of two annotators, far apart (their couple alone costs between C(n,2) and n*C(n,2) delta_empty, the whole range a single couple
+    of a retained candidate can take), bridged by one long unit of each other annotator: whether the n-unit unitary alignment is optimal, and whether
+    it survives the cut, is decided by its SUM only - any per-couple shortcut in the pruning shows here"""
+    n = draw(st.integers(3, 5))
+    c2n = n * (n - 1) // 2
+    w = 4.0
+    lo, hi = int(32 * c2n ** 0.5), int(32 * (n * c2n) ** 0.5) + 2
+    g = draw(st.integers(lo, hi)) / 8.0             # (g/w)^2 = positional cost of the far couple, in steps of 1/32 on g/w
+    names = ["a", "b", "c", "d", "e"][:n]
+    order = draw(st.permutations(names))
+    lab = draw(st.sampled_from(["A", "B"]))
+    units = [[order[0], 0.0, w, lab], [order[1], g, g + w, lab]]
+    for a in order[2:]:
+        units.append([a, 0.0 - draw(st.integers(0, 2)) / 8.0, g + w + draw(st.integers(0, 2)) / 8.0, lab])
+    for a in order:                                   # optional far-away bystanders
+        if draw(st.integers(0, 3)) == 0:
+            s0 = 400.0 + draw(gen.dyadic(0, 40))
+            units.append([a, s0, s0 + draw(gen.dyadic(1, 8)), draw(st.sampled_from(["A", "B"]))])
+    delta = draw(st.sampled_from([1.0, 1.0, 0.5, 2.5]))
+    spec = draw(st.sampled_from([{"kind": "pos", "delta": delta},
+                                 {"kind": "combined", "alpha": 1.0, "beta": 1.0, "delta": delta, "pos": None, "cat": None},
+                                 {"kind": "combined", "alpha": 1.0, "beta": 0.0, "delta": delta, "pos": None, "cat": None}]))
+    return {"continuum": {"annotators": sorted(names), "units": units, "shape": "bridge"}, "dissim": spec,
+            "backend": draw(st.sampled_from(["cbc", "cbc", "glpk"])), "xcheck": draw(st.sampled_from([0, 1]))}
+
+
+@st.composite
 def history_cases(draw):
     from . import c07
     cs = draw(cases())
@@ -159,6 +189,8 @@ def subchecks(tier):
             examples={"quick": 300, "thorough": 2500}, shards={"quick": 8, "thorough": 16}),
         Sub(name="pairs", check=check, strategy=cases(pairs=True),
             examples={"quick": 120, "thorough": 800}, shards={"quick": 8, "thorough": 16}),
+        Sub(name="bridge", check=check, strategy=bridge_cases(),
+            examples={"quick": 300, "thorough": 4000}, shards={"quick": 8, "thorough": 16}),
         Sub(name="grid2", kind="enum", check=check, cases=c01.enum_cases(2), exhaustive=True,
             shards={"quick": 8, "thorough": 16}),
     ]
